@@ -177,12 +177,14 @@ func runC14(r *Run) {
 		data,
 		flip(KV{K: "t", V: VBool(false)}, KV{K: "f", V: VBool(true)}, KV{K: "s", V: VStr("")}, KV{K: "e", V: VStr("full")}, KV{K: "n", V: VInt("int", 0)}, KV{K: "z", V: VInt("int", 5)}, KV{K: "cls", V: VStr("r2")}, KV{K: "css", V: VStr("margin:2px")}, KV{K: "fs", V: VStr("")}),
 		data,
-		flip(KV{K: "t", V: VBool(false)}, KV{K: "nil", V: VStr("set")}, KV{K: "list", V: VList("", VStr("only"))}, KV{K: "cls", V: VStr("")}, KV{K: "css", V: VStr("")}, KV{K: "u", V: VInt("uint16", 0)}),
+		flip(KV{K: "t", V: VBool(false)}, KV{K: "nil", V: VStr("set")}, KV{K: "list", V: VList("")}, KV{K: "cls", V: VStr("")}, KV{K: "css", V: VStr("")}, KV{K: "u", V: VInt("uint16", 0)}),
 	}
 	// plain paths, and paths only the path resolver can follow (a hyphenated key, a dotted numeric index, a name
 	// that is a keyword of the expression language)
 	paths := []string{"s", "e", "t", "f", "n", "z", "z8", "u", "fl", "nil", "list", "cls", "css", "fs", "m.k", "m.zz", "zz",
-		"m.is-open", "m.is-closed", "lm.0.on", "lm.1.on", "list.0", "lm[0].on", "not", "in", "let"}
+		"m.is-open", "m.is-closed", "lm.0.on", "lm.1.on", "list.0", "lm[0].on", "not", "in", "let",
+		// ... and paths of each kind that lead nowhere
+		"list.9", "m.is-none", "lm.7.on", "nope-x", "zz.0", "m.nokey.deeper"}
 	names := []string{"title", "href", "class", "style", "data-x", "id", "disabled"}
 	lits := []Val{VStr("red"), VStr(""), VBool(true), VBool(false), VInt("int", 12), VInt("int", 0)}
 	mkObj := func(key string) c14Attr {
